@@ -1,6 +1,8 @@
 (* Properties/C04.v -- every emitted frame is well-formed at every layer.
-   This file only pins statements; the proofs are in Proofs/C04.v. *)
-From MS Require Import L2 Spec.View Spec.RefDec Spec.C04 Proofs.C04.
+   This file only pins statements; the proofs are in Proofs/C04.v,
+   Proofs/ReplyBytes.v, Proofs/SmbBytes.v and Proofs/C04Closed.v. *)
+From MS Require Import L2 Spec.View Spec.RefDec Spec.C04 Spec.EnvOk
+     Proofs.C04 Proofs.ReplyBytes Proofs.C04Closed.
 
 (* For every environment, configuration, clock, table (= whatever happened before)
    and received frame: a frame that reply() emits decodes with the strict reference
@@ -10,7 +12,7 @@ From MS Require Import L2 Spec.View Spec.RefDec Spec.C04 Proofs.C04.
    window on SYN-ACK; UDP length, checksum (IPv4: zero or valid; IPv6: non-zero and
    valid); ICMP length and checksum; hop limit 255 on neighbour advertisements.
    The two hypotheses on the emitted frame (octets, and shorter than 64 KiB) are
-   discharged in Proofs/ReplyBytes.v for received frames of at most 4096 bytes. *)
+   discharged below for received frames of at most 4096 bytes. *)
 Theorem C04_wellformed :
   forall E cfg clk tb f tb' r evs,
     cfg_ok cfg = true -> bytes_ok f = true ->
@@ -19,4 +21,39 @@ Theorem C04_wellformed :
     wf_frame r = true.
 Proof. exact wellformed. Qed.
 
+(* Every emitted frame is a string of octets: the dumped constants are octet strings
+   ([env_ok], and [env_blobs_ok] for the two SMB security blobs), the clock string
+   is, and so is the received frame. *)
+Theorem C04_emitted_bytes_ok :
+  forall E cfg clk tb f tb' r evs,
+    cfg_ok cfg = true -> env_ok E = true -> env_blobs_ok E = true ->
+    bytes_ok f = true -> bytes_ok (clk_date clk) = true ->
+    reply E cfg clk tb f = Ok (tb', Some r, evs) ->
+    bytes_ok r = true.
+Proof. exact emitted_bytes_ok. Qed.
+
+(* Every frame emitted in answer to a frame of at most 4096 bytes is shorter than
+   64 KiB, when each dumped constant is shorter than 2048 bytes ([env_small]) and the
+   clock string is at most 64 bytes long. *)
+Theorem C04_emitted_short :
+  forall E cfg clk tb f tb' r evs,
+    cfg_ok cfg = true -> env_small E = true -> bytes_ok f = true ->
+    (length f <= 4096)%nat -> (length (clk_date clk) <= 64)%nat ->
+    reply E cfg clk tb f = Ok (tb', Some r, evs) ->
+    (length r < 65536)%nat.
+Proof. exact emitted_short. Qed.
+
+(* C04 with no hypothesis on the emitted frame. *)
+Theorem C04_wellformed_unconditional :
+  forall E cfg clk tb f tb' r evs,
+    cfg_ok cfg = true -> env_ok E = true -> env_blobs_ok E = true -> env_small E = true ->
+    bytes_ok f = true -> (length f <= 4096)%nat ->
+    bytes_ok (clk_date clk) = true -> (length (clk_date clk) <= 64)%nat ->
+    reply E cfg clk tb f = Ok (tb', Some r, evs) ->
+    wf_frame r = true.
+Proof. exact wellformed_unconditional. Qed.
+
 Print Assumptions C04_wellformed.
+Print Assumptions C04_emitted_bytes_ok.
+Print Assumptions C04_emitted_short.
+Print Assumptions C04_wellformed_unconditional.
